@@ -63,7 +63,8 @@ impl Job {
 fn tree(i: usize, chunk: usize, block: usize) -> Vec<(String, usize)> {
     match i {
         0 => vec![("t/empty".into(), 0), ("t/one".into(), 1)],
-        1 => vec![("t/d1/a.bin".into(), chunk - 1), ("t/d1/d2/b.bin".into(), chunk), ("t/d1/d2/c.bin".into(), chunk + 1), ("t/z".into(), 5)],
+        // (dot-named file and dot-named directory: reached through the directory recursion of create)
+        1 => vec![("t/d1/a.bin".into(), chunk - 1), ("t/d1/d2/b.bin".into(), chunk), ("t/d1/d2/c.bin".into(), chunk + 1), ("t/z".into(), 5), ("t/.profile".into(), 9), ("t/d1/.config/settings".into(), 4)],
         2 => vec![("t/é☠ dir/spaced name.txt".into(), 33), ("t/é☠ dir/ü".into(), 0), ("t/plain".into(), 2 * chunk + 7)],
         3 => vec![("t/blk-1".into(), block - 1), ("t/blk".into(), block), ("t/blk+1".into(), block + 1)],
         4 => vec![("t/a".into(), 3 * chunk), ("t/b".into(), 7), ("t/c/d/e/f".into(), chunk + 16)],
@@ -174,6 +175,17 @@ fn verify(cx: &mut Ctx, archive: &str, privkey: Option<&str>, files: &Files, tag
     let want_list: String = files.keys().map(|n| format!("{n}\n")).collect();
     if !o.status.success() || String::from_utf8_lossy(&o.stdout) != want_list {
         return fail("list_differs", format!("mlar {a:?}: status {:?}, stdout {:?}, expected {:?}, stderr {:?}", o.status.code(), String::from_utf8_lossy(&o.stdout), want_list, tail(&o.stderr)));
+    }
+    // list with the (single) private key delivered through a pipe: `-k /dev/stdin`
+    if let Some(pk) = privkey.filter(|p| !p.contains(',')) {
+        if let Ok(kb) = std::fs::read(cx.dir.join(pk)) {
+            let a = vec![s("list"), s("-i"), s(archive), s("-k"), s("/dev/stdin")];
+            let dir = cx.dir.to_path_buf();
+            let o = cx.run_in(&dir, &a, Some(&kb));
+            if !o.status.success() || String::from_utf8_lossy(&o.stdout) != want_list {
+                return fail("list_differs", format!("mlar {a:?} (key file {pk} on standard input): status {:?}, stdout {:?}, expected {:?}, stderr {:?}", o.status.code(), String::from_utf8_lossy(&o.stdout), want_list, tail(&o.stderr)));
+            }
+        }
     }
     // list -vv
     let mut a = vec![s("list"), s("-vv"), s("-i"), s(archive)];
